@@ -456,6 +456,64 @@ JCmpProbe(e, st) ==
       ELSE IF e.out.val \in S THEN Ok(st) ELSE Fail("CmpProbe", st)
 
 ----------------------------------------------------------------------------
+(* Simplified printing of numeric conditions (C13): the printed conditions   *)
+(* use binary + - * / only and hold for the same valuations of the fluents   *)
+(* as the source conditions - decided by exact evaluation on a grid of       *)
+(* rational points.  A valuation at which a source or printed comparison is  *)
+(* closer to its boundary than `slack' is not used (rounding of coefficients *)
+(* at the requested decimals may move the boundary that much).               *)
+
+RECURSIVE OnlyBinary(_)
+OnlyBinary(e) ==
+  CASE e.k \in {"num", "fl"} -> TRUE
+    [] e.k = "bin" -> OnlyBinary(e.l) /\ OnlyBinary(e.r)
+    [] OTHER -> FALSE
+
+GridVals == {<<-2, 1>>, <<-1, 1>>, <<0, 1>>, <<1, 1>>, <<3, 1>>, <<1, 2>>, <<5, 2>>}
+FluentTerms(cs) == UNION {FluentsOfExpr(c.l) \cup FluentsOfExpr(c.r) : c \in cs}
+
+\* truth of one comparison at a valuation with a margin: "U" when undefined or too close
+Margin3(c, st, slack) ==
+  LET x == Eval(c.l, <<>>, st)  y == Eval(c.r, <<>>, st) IN
+  IF ~x.ok \/ ~y.ok \/ TooBig(x.v) \/ TooBig(y.v) THEN "U"
+  ELSE LET d == RSub(x.v, y.v) IN
+       IF TooBig(d) THEN "U"
+       ELSE IF ~RIsZero(slack) /\ RLe(RAbs(d), slack) THEN "U"
+       ELSE B3(CmpTol(c.op, x.v, y.v, RZero))
+
+Conj3(cs, st, slack) == AndSet({Margin3(c, st, slack) : c \in cs})
+
+\* the fewer fluents, the finer the grid (a wrong coefficient moves a boundary only a little)
+GridFor(n) ==
+  CASE n <= 1 -> {Norm(i, 8) : i \in -48..48}
+    [] n = 2  -> {Norm(i, 4) : i \in -12..12}
+    [] n = 3  -> {<<-2, 1>>, <<-1, 1>>, <<-1, 2>>, <<0, 1>>, <<1, 2>>, <<1, 1>>, <<3, 2>>, <<5, 2>>, <<3, 1>>}
+    [] OTHER  -> GridVals
+
+CondEquiv(src, obs, slack) ==
+  LET terms == FluentTerms(src \cup obs) IN
+  \A v \in [terms -> GridFor(Cardinality(terms))] :
+     LET st == [facts |-> {}, fl |-> v]
+         a == Conj3(src, st, slack)  b == Conj3(obs, st, slack)
+     IN  a = "U" \/ b = "U" \/ a = b
+
+JSimplify(e, st) ==
+  LET D == st[e.d].D
+      a == ActionNamed(D, e.act)
+      src == CmpsOfF(a.pre)
+      obs == {FormulaOfTree(x) : x \in Range(e.out.trees)}
+      slack == IF e.exact THEN RZero ELSE Norm(200, Pow10(IF e.digits > 5 THEN 5 ELSE e.digits))
+      \* Known deviation "ConstantConditionPrinted": when an equality fixes the value of a fluent,
+      \* a condition over that fluent alone is printed as a comparison of two constants, e.g.
+      \* (<= 4 7), which the library's own reader rejects (it is not omitted as implied).
+      constPrinted == \E c \in obs : c.k = "cmp" /\ FluentsOfExpr(c.l) \cup FluentsOfExpr(c.r) = {}
+      adm(dv) == e.out.reparse_ok \/ ("ConstantConditionPrinted" \in dv /\ constPrinted)
+  IN  IF Has(e.out, "exc") THEN Fail("Simplify:exception:" \o e.out.exc, st)
+      ELSE IF ~(\A c \in obs : c.k = "cmp" /\ OnlyBinary(c.l) /\ OnlyBinary(c.r)) THEN Fail("Simplify:not-binary-arithmetic", st)
+      ELSE IF Cardinality(FluentTerms(src \cup obs)) <= 4 /\ ~CondEquiv(src, obs, slack) THEN Fail("Simplify:not-equivalent", st)
+      ELSE WithDevs(adm, "Simplify:library-cannot-reread", st)
+
+----------------------------------------------------------------------------
 (* Renaming (C18): the handle e.h is a second parse of the same text whose   *)
 (* action e.act had its parameters renamed in place by the map e.map.        *)
 
@@ -589,6 +647,7 @@ Judge(e, st) ==
     [] e.c = "Rename"       -> JRename(e, st)
     [] e.c = "PrintExpr"    -> JPrintExpr(e, st)
     [] e.c = "CmpProbe"     -> JCmpProbe(e, st)
+    [] e.c = "Simplify"     -> JSimplify(e, st)
     [] e.c = "ApplyJoint"   -> JApplyJoint(e, st)
     [] e.c = "RunJointPlan" -> JRunJointPlan(e, st)
     [] e.c = "ExportJointTrajectory" -> JExportJointTrajectory(e, st)
